@@ -167,6 +167,9 @@ def run(ctx):
             lambda: loops.lagged_signal_loop(N, N % 3),
             lambda: loops.const_feed_loop(N, N % 2),
             lambda: loops.interval_loop(2 * N + 1, N % 3),
+            lambda: loops.two_exit_loop(N % 2, 100, 2 * N + 1, "conv"),
+            lambda: loops.two_exit_loop(N % 2, 100, 2 * N + 1, "budget"),
+            lambda: loops.two_exit_loop(0, 2 * N, 100, "budget"),
         ):
             if ctx.shard[0] != sysn % ctx.shard[1]:
                 sysn += 1
